@@ -4,10 +4,13 @@
 (* Values: [t |-> "int", neg |-> b, digits |-> decimal digits]               *)
 (*         [t |-> "float", txt |-> ASCII octets of the number's text]        *)
 (*         [t |-> "bool", v |-> b]   [t |-> "null"]                          *)
-(*         [t |-> "bytes", b |-> octets]   [t |-> "text", u |-> UTF-8 octets]*)
+(*         [t |-> "bytes", b |-> octets]   [t |-> "text", cp |-> code points] *)
 (*         [t |-> "list", xs |-> values]   [t |-> "dict", kv |-> << <<key octets, value>>, ... >>]   *)
 (* Dump is the serialisation; Parse its inverse, returning the value and the *)
 (* unconsumed rest.  Integers are digit strings (arbitrary precision).       *)
+(* Text is a sequence of code points, written in the encoding both sides are  *)
+(* given ("utf-8", the default, or "latin-1"); the encoding applies to text   *)
+(* at every nesting depth.                                                     *)
 (***************************************************************************)
 EXTENDS Bytes, Naturals, Sequences, TLC
 
@@ -16,16 +19,33 @@ Dec(n) == IF n < 10 THEN <<48 + n>> ELSE Dec(n \div 10) \o <<48 + (n % 10)>>    
 
 Wrap(payload, code) == Dec(Len(payload)) \o <<58>> \o payload \o <<code>>
 
-RECURSIVE Dump(_)
-Dump(v) ==
+\* ---- text encodings (code points < 65536)
+Utf8(c) == IF c < 128 THEN <<c>> ELSE IF c < 2048 THEN <<192 + (c \div 64), 128 + (c % 64)>>
+           ELSE <<224 + (c \div 4096), 128 + ((c \div 64) % 64), 128 + (c % 64)>>
+EncText(enc, cps) == IF enc = "latin-1" THEN cps ELSE Concat([ i \in 1 .. Len(cps) |-> Utf8(cps[i]) ])
+Encodable(enc, cps) == enc # "latin-1" \/ \A i \in 1 .. Len(cps) : cps[i] < 256
+RECURSIVE DecUtf8(_)
+\* code points of well-formed UTF-8 octets (<<0 - 1>> in front of whatever follows a malformed place)
+DecUtf8(b) ==
+  IF b = <<>> THEN <<>>
+  ELSE LET c == b[1] IN
+       IF c < 128 THEN <<c>> \o DecUtf8(Tail(b))
+       ELSE IF c >= 192 /\ c < 224 /\ Len(b) >= 2 THEN <<(c - 192) * 64 + (b[2] - 128)>> \o DecUtf8(SubSeq(b, 3, Len(b)))
+       ELSE IF c >= 224 /\ c < 240 /\ Len(b) >= 3 THEN <<(c - 224) * 4096 + (b[2] - 128) * 64 + (b[3] - 128)>> \o DecUtf8(SubSeq(b, 4, Len(b)))
+       ELSE <<0 - 1>>
+DecText(enc, b) == IF enc = "latin-1" THEN b ELSE DecUtf8(b)
+
+RECURSIVE DumpE(_, _)
+DumpE(v, enc) ==
   CASE v.t = "int"   -> Wrap((IF v.neg THEN <<45>> ELSE <<>>) \o v.digits, 35)          \* '#'
     [] v.t = "float" -> Wrap(v.txt, 94)                                                  \* '^'
     [] v.t = "bool"  -> Wrap(IF v.v THEN <<116, 114, 117, 101>> ELSE <<102, 97, 108, 115, 101>>, 33)   \* '!'
     [] v.t = "null"  -> <<48, 58, 126>>                                                  \* 0:~
     [] v.t = "bytes" -> Wrap(v.b, 44)                                                    \* ','
-    [] v.t = "text"  -> Wrap(v.u, 36)                                                    \* '$'
-    [] v.t = "list"  -> Wrap(Concat([ i \in 1 .. Len(v.xs) |-> Dump(v.xs[i]) ]), 93)     \* ']'
-    [] v.t = "dict"  -> Wrap(Concat([ i \in 1 .. Len(v.kv) |-> Wrap(v.kv[i][1], 44) \o Dump(v.kv[i][2]) ]), 125)   \* '}'
+    [] v.t = "text"  -> Wrap(EncText(enc, v.cp), 36)                                     \* '$'
+    [] v.t = "list"  -> Wrap(Concat([ i \in 1 .. Len(v.xs) |-> DumpE(v.xs[i], enc) ]), 93)     \* ']'
+    [] v.t = "dict"  -> Wrap(Concat([ i \in 1 .. Len(v.kv) |-> Wrap(v.kv[i][1], 44) \o DumpE(v.kv[i][2], enc) ]), 125)   \* '}'
+Dump(v) == DumpE(v, "utf-8")
 
 \* ---- parsing
 IsDigit(c) == c >= 48 /\ c <= 57
@@ -36,8 +56,8 @@ RECURSIVE Colon(_, _)
 Colon(b, i) == IF i > Len(b) THEN 0 ELSE IF b[i] = 58 THEN i ELSE Colon(b, i + 1)
 
 Bad == [ok |-> FALSE, v |-> [t |-> "null"], rest |-> <<>>]
-RECURSIVE Parse(_), ParseList(_), ParseDict(_)
-Parse(b) ==
+RECURSIVE ParseE(_, _), ParseList(_, _), ParseDict(_, _)
+ParseE(b, enc) ==
   LET c == Colon(b, 1) IN
   IF c <= 1 \/ \E i \in 1 .. (c - 1) : ~IsDigit(b[i]) THEN Bad
   ELSE LET n == Num(SubSeq(b, 1, c - 1), 0) IN
@@ -50,24 +70,34 @@ Parse(b) ==
               [] code = 33 -> [ok |-> TRUE, rest |-> rest, v |-> [t |-> "bool", v |-> (p = <<116, 114, 117, 101>>)]]
               [] code = 126 -> IF n = 0 THEN [ok |-> TRUE, rest |-> rest, v |-> [t |-> "null"]] ELSE Bad
               [] code = 44 -> [ok |-> TRUE, rest |-> rest, v |-> [t |-> "bytes", b |-> p]]
-              [] code = 36 -> [ok |-> TRUE, rest |-> rest, v |-> [t |-> "text", u |-> p]]
-              [] code = 93 -> LET l == ParseList(p) IN IF l.ok THEN [ok |-> TRUE, rest |-> rest, v |-> [t |-> "list", xs |-> l.xs]] ELSE Bad
-              [] code = 125 -> LET d == ParseDict(p) IN IF d.ok THEN [ok |-> TRUE, rest |-> rest, v |-> [t |-> "dict", kv |-> d.kv]] ELSE Bad
+              [] code = 36 -> [ok |-> TRUE, rest |-> rest, v |-> [t |-> "text", cp |-> DecText(enc, p)]]
+              [] code = 93 -> LET l == ParseList(p, enc) IN IF l.ok THEN [ok |-> TRUE, rest |-> rest, v |-> [t |-> "list", xs |-> l.xs]] ELSE Bad
+              [] code = 125 -> LET d == ParseDict(p, enc) IN IF d.ok THEN [ok |-> TRUE, rest |-> rest, v |-> [t |-> "dict", kv |-> d.kv]] ELSE Bad
               [] OTHER -> Bad
-ParseList(p) ==
+ParseList(p, enc) ==
   IF p = <<>> THEN [ok |-> TRUE, xs |-> <<>>]
-  ELSE LET h == Parse(p) IN
+  ELSE LET h == ParseE(p, enc) IN
        IF ~h.ok THEN [ok |-> FALSE, xs |-> <<>>]
-       ELSE LET r == ParseList(h.rest) IN [ok |-> r.ok, xs |-> <<h.v>> \o r.xs]
-ParseDict(p) ==
+       ELSE LET r == ParseList(h.rest, enc) IN [ok |-> r.ok, xs |-> <<h.v>> \o r.xs]
+ParseDict(p, enc) ==
   IF p = <<>> THEN [ok |-> TRUE, kv |-> <<>>]
-  ELSE LET k == Parse(p) IN
+  ELSE LET k == ParseE(p, enc) IN
        IF ~k.ok \/ k.v.t # "bytes" \/ k.rest = <<>> THEN [ok |-> FALSE, kv |-> <<>>]
-       ELSE LET x == Parse(k.rest) IN
+       ELSE LET x == ParseE(k.rest, enc) IN
             IF ~x.ok THEN [ok |-> FALSE, kv |-> <<>>]
-            ELSE LET r == ParseDict(x.rest) IN [ok |-> r.ok, kv |-> << <<k.v.b, x.v>> >> \o r.kv]
+            ELSE LET r == ParseDict(x.rest, enc) IN [ok |-> r.ok, kv |-> << <<k.v.b, x.v>> >> \o r.kv]
 
 \* C20: serialising and parsing returns an equal value and consumes the whole string -- also in front of any tail
-RoundTrip(v) == LET r == Parse(Dump(v)) IN r.ok /\ r.v = v /\ r.rest = <<>>
-RoundTripTail(v, tail) == LET r == Parse(Dump(v) \o tail) IN r.ok /\ r.v = v /\ r.rest = tail
+Parse(b) == ParseE(b, "utf-8")
+RoundTrip(v, enc) == LET r == ParseE(DumpE(v, enc), enc) IN r.ok /\ r.v = v /\ r.rest = <<>>
+RoundTripTail(v, enc, tail) == LET r == ParseE(DumpE(v, enc) \o tail, enc) IN r.ok /\ r.v = v /\ r.rest = tail
+\* can every text inside v be written in the encoding?
+RECURSIVE EncodableV(_, _)
+EncodableV(enc, v) == CASE v.t = "text" -> Encodable(enc, v.cp)
+                        [] v.t = "list" -> \A i \in 1 .. Len(v.xs) : EncodableV(enc, v.xs[i])
+                        [] v.t = "dict" -> \A i \in 1 .. Len(v.kv) : EncodableV(enc, v.kv[i][2])
+                        [] OTHER -> TRUE
+RECURSIVE HasText(_)
+HasText(v) == CASE v.t = "text" -> TRUE [] v.t = "list" -> \E i \in 1 .. Len(v.xs) : HasText(v.xs[i])
+                [] v.t = "dict" -> \E i \in 1 .. Len(v.kv) : HasText(v.kv[i][2]) [] OTHER -> FALSE
 =============================================================================
